@@ -197,7 +197,7 @@ func runC20(cx *ctx) {
 }
 
 func racerCase(bin, buildNote, rsaFile string, g, procs int, class string, ops int, seed uint64) *h.Case {
-	args := []string{"-g", fmt.Sprint(g), "-procs", fmt.Sprint(procs), "-size", class, "-ops", fmt.Sprint(ops), "-seed", fmt.Sprint(seed)}
+	args := []string{"-g", fmt.Sprint(g), "-procs", fmt.Sprint(procs), "-size", class, "-ops", fmt.Sprint(ops), "-seed", fmt.Sprint(seed), "-fresh", fmt.Sprint(4 * ops)}
 	if rsaFile != "" {
 		args = append(args, "-rsa", rsaFile)
 	}
